@@ -129,7 +129,21 @@ func NewItems(ns []*gen.Node) fix.Items {
 		case gen.KComp:
 			out[i] = fix.NewComponent(NewItems(n.Items)...)
 		case gen.KGroup:
-			out[i] = fix.NewGroup(n.Tag, NewItems(n.Items)...)
+			out[i] = fix.NewGroup(n.Tag, groupTemplate(n.Items)...)
+		}
+	}
+	return out
+}
+
+// groupTemplate builds the template items of a repeating group. Every other Raw field
+// (by its tag) is declared the short way the library's own tests use for group
+// templates, without a value: &fix.KeyValue{Key: tag}; Group.AsTemplate gives such a
+// field a Raw value in every entry it makes.
+func groupTemplate(ns []*gen.Node) fix.Items {
+	out := NewItems(ns)
+	for i, n := range ns {
+		if n.K == gen.KField && n.T == gen.TRaw && len(n.Tag) > 0 && (n.Tag[len(n.Tag)-1]-'0')%2 == 0 {
+			out[i] = &fix.KeyValue{Key: n.Tag}
 		}
 	}
 	return out
@@ -327,6 +341,14 @@ func fill(c container, ns []*gen.Node, ps []*gen.Pop) error {
 				return fmt.Errorf("item %d is %T, not a component", i, c.items()[i])
 			}
 			switch p.Build {
+			case 3:
+				// the application keeps this block of fields as a plain fix.Items value (an Item like
+				// any other) instead of a *fix.Component
+				blk := NewItems(n.Items)
+				if err := fill(itemsC{blk}, n.Items, p.Items); err != nil {
+					return err
+				}
+				c.set(i, blk)
 			case 1:
 				comp = fix.NewComponent(NewItems(n.Items)...)
 				if err := fill(compC{comp}, n.Items, p.Items); err != nil {
@@ -521,8 +543,8 @@ func Leaves(items fix.Items, ns []*gen.Node, ps []*gen.Pop, inEntry, first bool,
 				*out = append(*out, LeafRef{kv, n, p, inEntry, f})
 			}
 		case gen.KComp:
-			if comp, ok := items[i].(*fix.Component); ok {
-				Leaves(comp.Items(), n.Items, p.Items, inEntry, f, out)
+			if sub, ok := blockItems(items[i]); ok {
+				Leaves(sub, n.Items, p.Items, inEntry, f, out)
 			}
 		case gen.KGroup:
 			if g, ok := items[i].(*fix.Group); ok {
@@ -535,6 +557,18 @@ func Leaves(items fix.Items, ns []*gen.Node, ps []*gen.Pop, inEntry, first bool,
 			}
 		}
 	}
+}
+
+// blockItems returns the members of a component, whether the application keeps
+// it as a *fix.Component or as a plain fix.Items block (both are Items of a body).
+func blockItems(it fix.Item) (fix.Items, bool) {
+	switch b := it.(type) {
+	case *fix.Component:
+		return b.Items(), true
+	case fix.Items:
+		return b, true
+	}
+	return nil, false
 }
 
 // GroupRef is a group of a library message with its model.
@@ -550,8 +584,8 @@ func Groups(items fix.Items, ns []*gen.Node, ps []*gen.Pop, out *[]GroupRef) {
 		p := ps[i]
 		switch n.K {
 		case gen.KComp:
-			if comp, ok := items[i].(*fix.Component); ok {
-				Groups(comp.Items(), n.Items, p.Items, out)
+			if sub, ok := blockItems(items[i]); ok {
+				Groups(sub, n.Items, p.Items, out)
 			}
 		case gen.KGroup:
 			if g, ok := items[i].(*fix.Group); ok {
